@@ -5,6 +5,8 @@ quarter-integers stored as quadrupled integers ("polys").
 
 lines   porepy.constrain_geometry.lines_by_polygon(polygon, pts, edges): integer convex / star / rectilinear
         polygons (both orientations, optional redundant vertices), 1-4 segments per case.
+lines_history / polys_history   2-4 consecutive calls in one process on array objects that are fresh, re-used, modified
+        in place, copied after an in-place modification or replaced; polygons A, B interleaved; same oracles per call.
 polys   porepy.constrain_geometry.polygons_by_polyhedron(polygons, polyhedron): convex planar polygons
         (affine images of integer convex polygons) against convex lattice polyhedra (exact brute-force hull,
         coplanar triangles merged into polygonal faces).
@@ -39,7 +41,12 @@ RULE = (
     "pieces of one edge do not overlap, tags / edge ids are carried (tolerance 1e-9 * segment length); boundary-only "
     "parts may be kept or dropped. Polygons: the exact Sutherland-Hodgman intersection Q; if area(Q) > 0 exactly one "
     "polygon is returned whose ordered vertices lie on the boundary of Q, contain every vertex of Q (1e-7) and have "
-    "the area vector of Q (rtol 1e-7); if Q is empty, a point or a segment nothing is returned. Non-trivial = a "
+    "the area vector of Q (rtol 1e-7); if Q is empty, a point or a segment nothing is returned. Call histories (3 cases in "
+    "8): 2-4 calls of lines_by_polygon on one or two polygons (A, B, A interleaving forced) where the polygon array is "
+    "fresh / the same object / overwritten in place / copied after being overwritten in place / replaced, segment arrays "
+    "fresh / re-used / overwritten in place, new contents = axis scaling + shift + one moved vertex (kept simple); 2-3 calls "
+    "of polygons_by_polyhedron with side and polygon arrays mapped x -> kx + shift in place or afresh; the same exact oracle "
+    "after every call against the arrays' current content. Non-trivial = a "
     "segment / polygon that is cut (partly inside); distinct = hash of spec."
 )
 BUDGET = {"quick": {"cases": 3000, "seconds": 45}, "thorough": {"cases": 60000, "seconds": 1100}}
@@ -52,7 +59,8 @@ LEVEL_NOTE = ("Coordinates are half-integers, so contacts are exact and everythi
               "behaviour inside tolerance bands is not examined. Polygons coplanar with a polyhedron face are skipped, "
               "non-convex polyhedra are not generated (the statement quantifies over convex polyhedra; the code has a "
               "FIXME for parallel boundary surfaces). Boundary-only parts of a segment carry no demand (the code "
-              "drops them on purpose). Finds violations, does not prove absence.")
+              "drops them on purpose). Histories are 2-4 calls in one process; state shared between processes or threads is not "
+              "examined. Finds violations, does not prove absence.")
 DESIGN_REF = "DESIGN.md section 4, C44"
 ASSUMPTIONS = [
     "clip polygons are simple with non-zero area; clip polyhedra are convex, closed, with non-empty interior; their "
@@ -63,7 +71,9 @@ ASSUMPTIONS = [
     "returned coordinates are compared with tolerance 1e-9 (segments) / 1e-7 (polygons; the function merges points "
     "closer than its tol=1e-8)",
 ]
-REQUIRED = {"lines": 0.3, "polys": 0.15, "poly-convex": 0.05, "poly-star": 0.05, "poly-hist": 0.05,
+REQUIRED = {"lines": 0.3, "polys": 0.15, "lines-history": 0.1, "polys-history": 0.05, "polygon-modified-in-place": 0.05,
+            "history-polygon-fresh-copy-after-modification": 0.02, "history-polygon-same-object": 0.02,
+            "history-interleaved": 0.02, "polyhedron-modified-in-place": 0.02, "poly-convex": 0.05, "poly-star": 0.05, "poly-hist": 0.05,
             "seg-inside": 0.03, "seg-outside": 0.03, "seg-cut": 0.1, "seg-multi-piece": 0.01, "seg-boundary-part": 0.02,
             "seg-point-contact": 0.02, "polyh-coplanar-sides": 0.05, "hanging>=2": 0.01, "pp-plane-through-vertex": 0.01,
             "pp-plane-contains-edge": 0.01, "pp-polyhedron-vertex-inside-polygon": 0.01, "pp-inside": 0.003, "pp-outside": 0.02, "pp-cut": 0.05, "pp-general-position": 0.05,
@@ -160,9 +170,65 @@ def _planar_polygon(draw, pts, through=False):
     return verts
 
 
+def _transform(draw, v):
+    """New integer content for a polygon: axis scaling + shift, then (if it stays simple) one vertex moved."""
+    sx, sy = draw(st.sampled_from([1, 1, 2, 3])), draw(st.sampled_from([1, 1, 2]))
+    dx, dy = draw(st.integers(-2, 2)), draw(st.integers(-2, 2))
+    out = [[sx * p[0] + dx, sy * p[1] + dy] for p in v]
+    if draw(st.booleans()):
+        i = draw(st.integers(0, len(out) - 1))
+        cand = [list(p) for p in out]
+        cand[i] = [cand[i][0] + draw(st.integers(-2, 2)), cand[i][1] + draw(st.integers(-2, 2))]
+        if ep.is_simple(cand):
+            out = cand
+    if out == v:
+        out = [[p[0] + 1, p[1]] for p in out]
+    return out
+
+
+@st.composite
+def _lines_history(draw):
+    pols = [draw(polys.polygon(max_extra=4))["v"] for _ in range(draw(st.sampled_from([1, 2, 2])))]
+    nstep = draw(st.integers(2, 4))
+    if len(pols) == 2 and draw(st.booleans()):
+        which = [0, 1, 0, 1][:max(nstep, 3)]
+    else:
+        which = [draw(st.integers(0, len(pols) - 1)) for _ in range(nstep)]
+    steps, seen = [], set()
+    for w in which:
+        mode = draw(st.sampled_from(_MODES)) if w in seen else "fresh"
+        if mode in ("modify", "modify-fresh", "replace"):
+            pols[w] = _transform(draw, pols[w])
+        seen.add(w)
+        steps.append({"which": w, "mode": mode, "v": [list(p) for p in pols[w]],
+                      "segs": [draw(_segment(pols[w])) for _ in range(draw(st.integers(1, 3)))],
+                      "seg_mode": draw(st.sampled_from(["fresh", "fresh", "reuse", "inplace"]))})
+    return {"fn": "lines_history", "steps": steps}
+
+
+@st.composite
+def _polys_history(draw):
+    H = draw(polys.polyhedron_points(max_extra=2, prefer_box=True))
+    split = draw(st.one_of(st.just(0), st.integers(1, 2 ** 24 - 1)))
+    steps = [{"k": 1, "shift": [0, 0, 0], "mode": "fresh"}]
+    for _ in range(draw(st.integers(1, 2))):
+        steps.append({"k": draw(st.sampled_from([1, 1, 2])),
+                      "shift": draw(st.lists(st.sampled_from([0, 0, 1, -1, 2]), min_size=3, max_size=3)),
+                      "mode": draw(st.sampled_from(["fresh", "modify", "modify", "modify-fresh"]))})
+    return {"fn": "polys_history", "pts": H["pts"],
+            "polygons": [draw(_planar_polygon(H["pts"], draw(st.booleans()))) for _ in range(draw(st.integers(1, 2)))],
+            "mask": draw(st.integers(0, 2 ** 20 - 1)), "as_array": False, "split": split,
+            "shuffle": draw(st.integers(0, 10 ** 6)), "steps": steps}
+
+
 @st.composite
 def _spec(draw):
-    fn = draw(st.sampled_from(["lines", "lines", "lines", "polys", "polys"]))
+    fn = draw(st.sampled_from(["lines", "lines", "lines", "polys", "polys", "lines_history", "lines_history",
+                               "polys_history"]))
+    if fn == "lines_history":
+        return draw(_lines_history())
+    if fn == "polys_history":
+        return draw(_polys_history())
     if fn == "lines":
         P = draw(polys.polygon())
         ns = draw(st.integers(1, 4))
@@ -244,7 +310,8 @@ def _known_single_vertex_touch(s):
 
 
 def _polys_with(s, wanted):
-    if s.get("fn") != "polys":
+    # the contact classes are invariant under the maps x -> k x + shift of a history, so the base content decides
+    if s.get("fn") not in ("polys", "polys_history"):
         return False
     facets, _, cuts = _sides(s)
     for vs in s["polygons"]:
@@ -280,7 +347,111 @@ def check(s):
 
     if s["fn"] == "lines":
         return _check_lines(pp, s)
+    if s["fn"] == "lines_history":
+        return _check_lines_history(pp, s)
+    if s["fn"] == "polys_history":
+        return _check_polys_history(pp, s)
     return _check_polys(pp, s)
+
+
+_MODES = ("fresh", "same", "modify", "modify-fresh", "replace")
+
+
+def _check_lines_history(pp, s):
+    """2-4 consecutive calls of lines_by_polygon in one process.  Every polygon slot (A, B) has a current content
+    and a current array object; per step the array handed over is fresh / the same object / the same object
+    modified in place / a fresh copy made after modifying the old object in place / a new array with new content (old
+    object untouched).  Point and edge arrays are likewise fresh, re-used, or overwritten in place.  After every call the
+    exact oracle is evaluated against the content the arrays have at that moment."""
+    labels = ["lines-history"]
+    arr, cur = {}, {}
+    prev_pts = prev_edges = prev_segs = None
+    nontrivial = False
+    used = []
+    for k, st_ in enumerate(s["steps"]):
+        w, mode, v = st_["which"], st_["mode"], st_["v"]
+        if not ep.is_simple(v):
+            raise HarnessError(f"history polygon not simple: {v}")
+        new = np.array(v, dtype=float).T
+        if w not in arr or mode in ("fresh", "replace") or arr[w].shape != new.shape:
+            if w in arr and mode in ("fresh", "same") and cur[w] != v:
+                raise HarnessError("history: content changed in a fresh/same step")
+            arr[w] = new
+            labels.append("history-polygon-" + ("replaced" if mode == "replace" and w in cur else "fresh"))
+        elif mode == "same":
+            if cur[w] != v:
+                raise HarnessError("history: content changed in a same step")
+            labels.append("history-polygon-same-object")
+        else:
+            arr[w][:, :] = new  # in place: every view of the caller's array changes with it
+            if cur[w] != v:
+                labels.append("polygon-modified-in-place")
+            if mode == "modify-fresh":
+                arr[w] = arr[w].copy()
+                labels.append("history-polygon-fresh-copy-after-modification")
+        cur[w] = v
+        used.append(w)
+        segs = st_["segs"]
+        ns = len(segs)
+        if st_["seg_mode"] == "reuse" and prev_pts is not None:
+            pts, edges, segs = prev_pts, prev_edges, prev_segs
+            labels.append("history-segments-reused")
+        else:
+            vals = np.array([pt for seg in segs for pt in seg], dtype=float).T / 2
+            if st_["seg_mode"] == "inplace" and prev_pts is not None and prev_pts.shape == vals.shape:
+                prev_pts[:, :] = vals
+                pts, edges = prev_pts, prev_edges
+                labels.append("history-segments-modified-in-place")
+            else:
+                pts = vals
+                edges = np.array([[2 * i for i in range(ns)], [2 * i + 1 for i in range(ns)]], dtype=int)
+        out = pp.constrain_geometry.lines_by_polygon(arr[w], pts, edges)
+        # (that the call leaves the caller's polygon array alone is not demanded by itself: if it were changed, the
+        # later steps that pass the same object again are judged against what the caller put into it)
+        try:
+            nontrivial = _lines_verify(v, segs, edges, out, labels) or nontrivial
+        except Exception as e:  # add the position in the history to the message
+            if hasattr(e, "tag"):
+                raise type(e)(e.tag, f"step {k} ({mode}, polygon {'AB'[w]}) of {[(x['which'], x['mode']) for x in s['steps']]}: {e.msg}")
+            raise
+        prev_pts, prev_edges, prev_segs = pts, edges, segs
+    if any(used[i] != used[i + 1] and used[i] in used[i + 2:] for i in range(len(used) - 1)):
+        labels.append("history-interleaved")
+    return {"labels": labels, "nontrivial": nontrivial}
+
+
+def _check_polys_history(pp, s):
+    """2-3 consecutive calls of polygons_by_polyhedron on the same side / polygon array objects, whose content is
+    mapped x -> k x + shift (in place or in fresh arrays) between the calls."""
+    labels = ["polys-history"]
+    faces = polygons = None
+    nontrivial = False
+    pts = [list(p) for p in s["pts"]]
+    pgs = [[list(v) for v in vs] for vs in s["polygons"]]
+    for k, st_ in enumerate(s["steps"]):
+        kk, sh, mode = st_["k"], st_["shift"], st_["mode"]
+        pts = [[kk * p[a] + sh[a] for a in range(3)] for p in pts]
+        pgs = [[[kk * v[a] + SC * sh[a] for a in range(3)] for v in vs] for vs in pgs]
+        s2 = dict(s, fn="polys", pts=pts, polygons=pgs)
+        _, sides, _ = _sides(s2)
+        newf = [np.array(t, dtype=float).T / SC for t in sides]
+        newp = [np.array(vs, dtype=float).T / SC for vs in pgs]
+        changed = kk != 1 or any(sh)
+        same_shapes = faces is not None and len(faces) == len(newf) and all(f.shape == g.shape for f, g in zip(faces, newf))
+        if faces is None or mode == "fresh" or not same_shapes:
+            faces, polygons = newf, newp
+        else:
+            for f, g in zip(faces, newf):
+                f[:, :] = g
+            for f, g in zip(polygons, newp):
+                f[:, :] = g
+            labels.append("polyhedron-modified-in-place" if changed else "history-polyhedron-same-object")
+            if mode == "modify-fresh":
+                faces, polygons = [f.copy() for f in faces], [f.copy() for f in polygons]
+        r = _check_polys(pp, s2, faces, polygons)
+        labels += [x for x in r["labels"] if x.startswith("pp-") or x.startswith("hanging")]
+        nontrivial = nontrivial or r["nontrivial"]
+    return {"labels": labels, "nontrivial": nontrivial}
 
 
 def _check_lines(pp, s):
@@ -306,6 +477,16 @@ def _check_lines(pp, s):
     if s["rows3"]:
         poly = np.vstack([poly, np.zeros(poly.shape[1])])
     int_pts, int_edges, kept = pp.constrain_geometry.lines_by_polygon(poly, pts, edges)
+    nontrivial = _lines_verify(v, s["segs"], edges, (int_pts, int_edges, kept), labels)
+    return {"labels": labels, "nontrivial": nontrivial}
+
+
+def _lines_verify(v, segs, edges, out, labels):
+    """Exact oracle for one call of lines_by_polygon: polygon vertices v (integers), segments segs (doubled integer end
+    points, segment i = columns edges[0, i], edges[1, i] of the point array), out = returned triple."""
+    v2 = [[2 * p[0], 2 * p[1]] for p in v]
+    ns = len(segs)
+    int_pts, int_edges, kept = out
     int_pts, int_edges, kept = np.asarray(int_pts, dtype=float), np.asarray(int_edges), np.asarray(kept)
     npiece = kept.size
     require(int_pts.shape == (2, 2 * npiece), "lines-pts-shape", f"{int_pts.shape} for {npiece} kept edges")
@@ -316,7 +497,7 @@ def _check_lines(pp, s):
                 f"{int_edges[:2].tolist()}")
         require(np.array_equal(int_edges[2:], edges[2:, kept]), "lines-tags", f"{int_edges[2:].tolist()} vs {edges[2:, kept].tolist()}")
     nontrivial = False
-    for i, (p, q) in enumerate(s["segs"]):
+    for i, (p, q) in enumerate(segs):
         parts, iso = _segment_parts(v2, p, q)
         interior = [(a, b) for a, b, c in parts if c == 1]
         L = float(np.hypot(q[0] - p[0], q[1] - p[1])) / 2
@@ -365,7 +546,9 @@ def _check_lines(pp, s):
             require(ok, "lines-interior-part-missing",
                     f"the part t in [{a:.12g}, {b:.12g}] of segment {[c / 2 for c in p]}->{[c / 2 for c in q]} is strictly inside "
                     f"polygon {v} but the returned pieces cover only {cov}")
-    return {"labels": labels, "nontrivial": nontrivial}
+    return nontrivial
+
+
 
 
 def _merge(iv, tol):
@@ -579,13 +762,19 @@ def _hanging_count(Q, cuts, verts):
     return cnt
 
 
-def _check_polys(pp, s):
+def _check_polys(pp, s, faces=None, polygons=None):
     facets, sides, cuts = _sides(s)
-    faces = [np.array(t, dtype=float).T / SC for t in sides]
+    if faces is None:
+        faces = [np.array(t, dtype=float).T / SC for t in sides]
+    elif len(faces) != len(sides) or any(not np.array_equal(f, np.array(t, dtype=float).T / SC) for f, t in zip(faces, sides)):
+        raise HarnessError("history: side arrays do not hold the current content")
     labels = ["polys", "ph-faces-poly" if any(f.shape[1] > 3 for f in faces) else "ph-faces-tri"]
     if cuts:
         labels.append("polyh-coplanar-sides")
-    polygons = [np.array(vs, dtype=float).T / SC for vs in s["polygons"]]
+    if polygons is None:
+        polygons = [np.array(vs, dtype=float).T / SC for vs in s["polygons"]]
+    elif any(not np.array_equal(g, np.array(vs, dtype=float).T / SC) for g, vs in zip(polygons, s["polygons"])):
+        raise HarnessError("history: polygon arrays do not hold the current content")
     expected = []
     for vs in s["polygons"]:
         if ep.affine_rank(vs) != 2:
